@@ -292,7 +292,68 @@ def base_local(e):
     return e if isinstance(e, dict) and e.get("k") == "local" else None
 
 
+def rows_by_interp(run, f, cfg, fn):
+    """prepare_insert_statement interpreted on statements with 1..3 rows of 1..3 opaque cells (and one whose only cell is a
+    tuple expression): after VALUES every row is written, in order, as `(` its cells in order, each through one renderer
+    call on that very cell, `, ` between `)`.  True when decided"""
+    from .. import kw, link as L
+    from ..interp import Opaque, Var, Unsupported, Diverged
+    SE = "crate::expr::SimpleExpr"
+    present = [d for d in ("mysql", "postgres", "sqlite") if L.BACKENDS[d] in f.adts]
+    if not present:
+        return False
+    bad, rows_n = [], 0
+    try:
+        for dialect in present:
+            linker = L.Linker(f, dialect)
+            target = linker.resolve("crate::backend::query_builder::QueryBuilder::prepare_insert_statement")
+            shapes = [[1], [2], [2, 2], [3, 3, 3]]
+            for shape in shapes + ["tuple"]:
+                it = kw._mk_interp(f, linker)
+                orig = it.unknown_call
+
+                def unknown(it_, e, env, depth, orig=orig):
+                    name = e.get("name") or (e.get("callee") or "").rsplit("::", 1)[-1]
+                    if name == "prepare_simple_expr":
+                        v = it_.ev(e["args"][0], env, depth)
+                        if isinstance(v, Var) and v.d == SE + "::Custom":
+                            it_.out.append(("sql", "<%s>" % v.fields[0]))
+                            return ()
+                        if isinstance(v, Var) and v.d == SE + "::Tuple":
+                            it_.out.append(("sql", "<tuple:%s>" % ",".join(x.fields[0] for x in v.fields[0])))
+                            return ()
+                        it_.out.append(("sql", "<part-of-a-cell %r>" % (v,)))
+                        return ()
+                    return orig(it_, e, env, depth)
+                it.unknown_call = unknown
+                if shape == "tuple":
+                    rows = [[Var(SE + "::Tuple", [[Var(SE + "::Custom", ["t0"]), Var(SE + "::Custom", ["t1"])]])]]
+                    want = "(<tuple:t0,t1>)"
+                else:
+                    rows = [[Var(SE + "::Custom", ["r%dc%d" % (i, j)]) for j in range(n)] for i, n in enumerate(shape)]
+                    want = ", ".join("(" + ", ".join("<r%dc%d>" % (i, j) for j in range(n)) + ")" for i, n in enumerate(shape))
+                stmt = {"replace": False, "table": None, "columns": [Opaque("col%d" % j) for j in range(len(rows[0]))],
+                        "source": ("__some", Var(IVS + "::Values", [rows])), "on_conflict": None, "returning": None, "default_values": None, "with": None}
+                it.call_fn(target, [Opaque("self"), stmt, Opaque("sql")])
+                txt = "".join(t for s_, t in it.out if s_ == "sql")
+                rows_n += 1
+                i = txt.find("VALUES ")
+                got = txt[i + 7:] if i >= 0 else txt
+                if got != want:
+                    bad.append("%s, rows %s: written `%s`, expected `%s`" % (dialect, shape, got, want))
+    except (Unsupported, Diverged, KeyError) as e:
+        run.notes.append("C10.R4 prepare_insert_statement outside the interpreter's fragment (%s): decided by the shape of its rows loop" % e)
+        return False
+    run.ob("C10.R4", "row-data:table", not bad,
+           "prepare_insert_statement interpreted on %d (backend, row shape) statements: after VALUES every row is written in order as its cells in order, "
+           "each through one renderer call on that very cell%s" % (rows_n, "" if not bad else " - NOT: " + "; ".join(bad[:3])), sp=fn["sp"], cfg=cfg)
+    return True
+
+
 def check_rows_whole(run, f, cfg, fn, ncalls):
+    if rows_by_interp(run, f, cfg, fn):
+        run.ob("C10.R4", "forward-iteration", True, "rows are iterated forward (decided by the interpreted table)", sp=fn["sp"], cfg=cfg, trivial=True)
+        return
     """Values arm of prepare_insert_statement: every row is rendered whole and every cell as itself - each renderer call
     inside the rows loop takes the row (or a view of it) or the element of an iteration over the row, never a part
     obtained by destructuring a row or a cell"""
